@@ -104,7 +104,7 @@ def generate(ctx, sd, variant):
     # write-concurrency and buffer size are chosen per behaviour (Init): one JVM serves several configurations
     gens = {
         "Gx": (ctx.pick(60, 300), dict(RPs=['"r1"', '"r2"'], SubNames=['"a"'], Ws=[1, 2], Bufs=[1, 2])),
-        "Gy": (ctx.pick(30, 150), dict(RPs=['"r1"'], SubNames=['"a"', '"b"'], Ws=[1, 2], Bufs=[1], DefIds=[1, 2, 4])),
+        "Gy": (ctx.pick(24, 100), dict(RPs=['"r1"'], SubNames=['"a"', '"b"'], Ws=[1, 2], Bufs=[1], DefIds=[1, 2, 4])),
     }
     if not ctx.quick():
         gens["Gz"] = (150, dict(RPs=['"r1"', '"r2"'], SubNames=['"a"', '"b"'], Ws=[1, 2], Bufs=[1, 2]))
@@ -113,10 +113,10 @@ def generate(ctx, sd, variant):
         c = consts(DefIds=[1, 2, 3, 4, 5], MaxBatches=7, MaxChanges=5, MaxInc=4, Dev=dev, GenLen=ctx.pick(18, 26), MetaEvery=4)
         c.update(kw)
         ctx.write_cfg(sd, name + ".cfg", "GSpec", c, extra="INVARIANT Emit")
-        # the simulator is single-threaded: chunks of at most 150 behaviours, each in its own JVM with its own seed
+        # the simulator is single-threaded: chunks of behaviours, each in its own JVM with its own seed
         k = 0
         while n > 0:
-            m = min(n, 150)
+            m = min(n, ctx.pick(30, 50))
             jobs.append(lambda nm=name, m=m, k=k: ctx.tlc_generate(sd, "SubscriberGen", nm + ".cfg", num=m, depth=250,
                                                                    seed=ctx.seed + 1000 * k, timeout=ctx.pick(900, 2400))[:m])
             n -= m
@@ -198,7 +198,7 @@ def run(ctx):
     ctx.cov["traces_validated_against_impl"] += done.get("held", 0)
 
     # 4. stress under the race detector
-    recs, out, rc = ctx.go_test(PKG, FILES, "^%s$" % STRESS, env={"VERIF_ROUNDS": ctx.pick(30, 400)}, timeout=1500, label="stress", race=True)
+    recs, out, rc = ctx.go_test(PKG, FILES, "^%s$" % STRESS, env={"VERIF_ROUNDS": ctx.pick(60, 400)}, timeout=1500, label="stress", race=True)
     sig, rep = race_report(out)
     if sig:
         ctx.report_mismatch(sig, rep, {"test": "race"})
